@@ -77,7 +77,7 @@ func VerifEvents() {
 		}
 		for _, ev := range subs[n].events {
 			if ev == "" {
-				if !up.vSend([]byte(`{"type":"error","id":"1","payload":[{"message":"upstream error `+subs[n].id+`"}]}`)) {
+				if !up.vSend([]byte(`{"type":"error","id":"1","payload":[{"message":"upstream error ` + subs[n].id + `"}]}`)) {
 					return
 				}
 				continue
